@@ -52,7 +52,7 @@ ExpCallOut(st, e) ==
 
 ExpBatchOut(st, e) ==
   LET ds   == [j \in 1..Len(e.args) |-> Den(st.P, e.f, e.args[j], e.c)]
-      errs == {j \in 1..Len(e.args) : ds[j].out = "E"}
+      errs == {j \in 1..Len(e.args) : ds[j].out # "V"}
   IN IF e.rf /\ errs # {} THEN ds[CHOOSE j \in errs : \A k \in errs : j <= k].val
      ELSE <<"L", [j \in 1..Len(e.args) |-> ds[j].val]>>
 
